@@ -4,8 +4,9 @@ import graphlib as gl
 RULE = ('per generated graph and factory: absent ids at every sort position (before the first node, between each adjacent pair, after '
         'the last, same id under a foreign prefix, same prefix with a longer/shorter id) x every traversal (include_source F/T), '
         'is_leaf, the four predicates as subject and as object, membership, node_to_idx; junk arguments (None, int, float, bytes, '
-        'tuple, non-CURIE strings) x every method; index API of the indexed graph with integers {-n-2..-1, n, n+1, n+2, 10^9} (python '
-        'and numpy ints) for the four *_idx traversals, idx_to_node and the is_*_of_idx predicates (bad/bad, bad/good, good/bad). '
+        'tuple, non-CURIE strings) x every method; predicates with TWO bad arguments (unknown/unknown, unknown/junk, junk/unknown, '
+        'junk/junk); index API of the indexed graph with integers {-n-2..-1, n, n+1, n+2, 10^9} (python and numpy ints) for the four '
+        '*_idx traversals, idx_to_node and the is_*_of_idx predicates (bad/bad, bad/good, good/bad). '
         'Outcome kind (value | ValueError | other error) compared with the Lean model. Every case probes a rejection path; distinct '
         'by (factory, edges, absent id / junk class / integer).')
 
@@ -71,6 +72,21 @@ def queries_for(rng, edges, factory, budget):
         p = rng.choice(gl.PREDS)
         qs.append((['pred', p, known, wire], ['pred', p, known, obj]))
         qs.append((['pred', p, wire, known], ['pred', p, obj, known]))
+    # two bad arguments at once: an unknown / junk OBJECT is an error whatever the subject is
+    junk = junk_args()
+    for a in absent[:3]:
+        form = rng.choice(['tid', 'str:', 'idf'])
+        w, i = gl.wire_arg(form, a), gl.mk_arg(form, a)
+        b = rng.choice(absent)
+        form2 = rng.choice(['tid', 'str:', 'idf'])
+        w2, i2 = gl.wire_arg(form2, b), gl.mk_arg(form2, b)
+        for p in gl.PREDS:
+            qs.append((['pred', p, w, w2], ['pred', p, i, i2]))                   # unknown subject, unknown object
+            name, obj, wire = rng.choice(junk)
+            qs.append((['pred', p, w, wire], ['pred', p, i, obj]))                # unknown subject, junk object
+            qs.append((['pred', p, wire, w2], ['pred', p, obj, i2]))              # junk subject, unknown object
+            name2, obj2, wire2 = rng.choice(junk)
+            qs.append((['pred', p, wire, wire2], ['pred', p, obj, obj2]))         # junk subject, junk object
     if factory == 'indexed':
         n = len(nodes) + (0)   # owl:Thing may be added: ask the model/impl for the real n through 'nodes' below
         feats = gl.graph_features(edges)
